@@ -96,12 +96,9 @@ def r1_case_fold_before_keying(ctx: Ctx) -> None:
     ok = len(lits) == 1 and all((const_str(e) or "X").islower() for e in lits[0].elts)
     ctx.check(ok, "is_value_size:lower-case-list", "the size list is lower-case, matching the folded suffix")
     ln = ctx.repo.func(SST, "lex_number")
-    acc = [n for n in walk_no_nested(ln.node) if isinstance(n, ast.Assign) and unparse(n.targets[0]) == "acceptable_values" and isinstance(n.value, ast.Dict)]
-    hexd = ""
-    if acc:
-        for k, v in zip(acc[0].value.keys, acc[0].value.values):  # type: ignore[attr-defined]
-            if const_str(k) == "x":
-                hexd = const_str(v) or ""
+    from .c06 import number_digit_sets
+
+    hexd = number_digit_sets(ctx).get("x") or ""
     ctx.check(set("abcdefABCDEF") <= set(hexd), "lex_number:hex-digits", "hexadecimal digits in both cases")
     en = ctx.repo.func("a816.parse.ast.expression", "eval_number")
     ctx.check(any(unparse(r.value).startswith("int(") for r in walk_no_nested(en.node) if isinstance(r, ast.Return)), "eval_number:int()", "digits are read by int(), which ignores letter case")
@@ -255,6 +252,18 @@ def r2_skip_sets(ctx: Ctx) -> None:
     ctx.count("skip_facts", 8)
 
 
+def _reads_opened(scope: ast.AST, fn: ast.FunctionDef, expr: ast.AST, path_var: str) -> bool:
+    """expr is `<fd>.read()` for an fd bound by `with open(<path_var>, ...) as fd` (or assigned from such an open) inside scope"""
+    text = canon(fn, expr, keep=[path_var])
+    for w in ast.walk(scope):
+        if isinstance(w, ast.With):
+            for it in w.items:
+                if isinstance(it.context_expr, ast.Call) and call_name(it.context_expr) == "open" and it.context_expr.args \
+                        and canon(fn, it.context_expr.args[0], keep=[path_var]) == path_var and isinstance(it.optional_vars, ast.Name) and text == f"{it.optional_vars.id}.read()":
+                    return True
+    return text.startswith(f"open({path_var}") and text.endswith(".read()")
+
+
 def r3_include_is_transparent(ctx: Ctx) -> None:
     pk = ctx.repo.func(PST, "parse_keyword")
     arms, _ = if_chain([s for s in pk.node.body if isinstance(s, ast.If)][0])
@@ -268,7 +277,7 @@ def r3_include_is_transparent(ctx: Ctx) -> None:
     scanners = [c for c in calls_in(mod) if call_name(c) == "Scanner"]
     parsers = [c for c in calls_in(mod) if call_name(c) == "Parser"]
     rets = [r for b in body for r in ast.walk(b) if isinstance(r, ast.Return)]
-    ok = (len(scanners) == 1 and "lex_initial" in unparse(scanners[0]) and len(scans) == 1 and [unparse(a) for a in scans[0].args] == ["filename", "source"]
+    ok = (len(scanners) == 1 and "lex_initial" in unparse(scanners[0]) and len(scans) == 1 and len(scans[0].args) == 2 and canon(pk_fn, scans[0].args[0], keep=["filename"]) == "filename" and _reads_opened(mod, pk_fn, scans[0].args[1], "filename")
           and len(parsers) == 1 and "parse_initial" in unparse(parsers[0]) and canon(pk_fn, parsers[0].args[0]) == canon(pk_fn, scans[0])
           and len(rets) == 1 and isinstance(rets[0].value, ast.Call) and call_name(rets[0].value) == "BlockAstNode"
           and canon(pk_fn, rets[0].value.args[0]).endswith(".parse()") and unparse(rets[0].value.args[1]) == "keyword")
